@@ -221,7 +221,9 @@ class Tensor(Funsor, metaclass=TensorMeta):
         # Handle diagonal variable substitution, including renaming onto the
         # name of an input that survives the renaming pass below. An input whose
         # renaming is materialized survives that pass too, hence the loop.
-        var_counts = Counter(v for v in subs.values() if isinstance(v, Variable))
+        name_counts = Counter(
+            v.name for v in subs.values() if isinstance(v, (Variable, Slice))
+        )
         kept = set(
             k
             for k in self.inputs
@@ -231,7 +233,7 @@ class Tensor(Funsor, metaclass=TensorMeta):
             clash = [
                 k
                 for k, v in subs.items()
-                if k not in kept and (var_counts[v] > 1 or v.name in kept)
+                if k not in kept and (name_counts[v.name] > 1 or v.name in kept)
             ]
             if not clash:
                 break
